@@ -174,8 +174,13 @@ pub fn oracle(c: &Case, st: &mut Stats) -> Result<(), String> {
           // a registered tag must be puncturable exactly once; an unregistered tag may be
           // refused outright (the statement does not say either way), but if the server
           // accepts it the second attempt must fail like any other
-          if r.is_ok() != first_time {
-            return Err(format!("{ctx}: puncture of tag {md} returned ok={} but first time for this key history={first_time}", r.is_ok()));
+          // the first puncture of a registered tag must succeed; whether a repeated puncture is an
+          // error or a no-op is not part of this property (the tag stays punctured either way)
+          if first_time && r.is_err() {
+            return Err(format!("{ctx}: first puncture of tag {md} failed: {:?}", r.err().map(|e| e.to_string())));
+          }
+          if !first_time {
+            st.class(if r.is_ok() { "repeated-puncture=ok" } else { "repeated-puncture=err" });
           }
           handles[hi].punctured.insert(md);
         } else {
@@ -211,6 +216,9 @@ pub fn oracle(c: &Case, st: &mut Stats) -> Result<(), String> {
         let hi = idx(*h, handles.len());
         let bytes = bincode::serialize(&handles[hi].server.get_private_key()).map_err(|e| format!("{ctx}: export failed: {e}"))?;
         let state: ServerKeyState = bincode::deserialize(&bytes).map_err(|e| format!("{ctx}: exported state does not restore: {e}"))?;
+        if state.as_ref() != handles[hi].server.get_private_key() {
+          return Err(format!("{ctx}: the key state restored from the exported bytes differs from the exporter's key state"));
+        }
         // the importer is a server that already served requests under its own key:
         // created with another tag set plus the exporter's tags, and swept before the import
         let mut imp_tags = c.other_mds.clone();
@@ -293,6 +301,7 @@ pub fn oracle(c: &Case, st: &mut Stats) -> Result<(), String> {
       eval_check(h, &mut model, md, 3, false, &points, "final sweep", st)?;
     }
   }
+  st.model(c.ops.len() as u64 + 1, c.ops.len() as u64, 1);
   st.class(&format!("handles={}", handles.len().min(8)));
   if interesting {
     st.nontrivial(&(format!("{:?}", c.ops), &c.mds));
